@@ -156,7 +156,11 @@ func fnOracleWith(name string, args []*variants.Variant, out *sx.List, ops varia
 func genC08(ctx *Ctx) {
 	pool := valuePool()
 	nums := []*variants.Variant{pool[1], pool[2], pool[3], pool[4], pool[6], pool[7], pool[8], pool[12], pool[14], pool[20], pool[21], pool[27], pool[28], pool[30], pool[33], pool[0], pool[37], pool[45],
-		variants.VariantFromDouble(math.Copysign(0, -1)), variants.VariantFromFloat(float32(math.Copysign(0, -1))), variants.VariantFromString("-0"), variants.VariantFromString("-0.0")}
+		variants.VariantFromDouble(math.Copysign(0, -1)), variants.VariantFromFloat(float32(math.Copysign(0, -1))), variants.VariantFromString("-0"), variants.VariantFromString("-0.0"),
+		// rounding edges: halves of both signs, the largest double below one half, an odd integer above 2^52, float32 halves
+		variants.VariantFromDouble(-2.5), variants.VariantFromDouble(2.5), variants.VariantFromDouble(-0.5), variants.VariantFromDouble(0.49999999999999994),
+		variants.VariantFromDouble(4503599627370497), variants.VariantFromDouble(-1.5), variants.VariantFromFloat(-2.5), variants.VariantFromFloat(8388609),
+		variants.VariantFromString("-2.5"), variants.VariantFromLong(-3)}
 	small := []*variants.Variant{variants.VariantFromInteger(2021), variants.VariantFromInteger(2), variants.VariantFromInteger(29), variants.VariantFromInteger(13), variants.VariantFromInteger(0), variants.VariantFromInteger(-1), variants.VariantFromInteger(59), variants.VariantFromLong(1614834367), variants.VariantFromInteger(1), variants.VariantFromInteger(3)}
 	pick := func(from []*variants.Variant) *variants.Variant { return from[ctx.Rnd.Intn(len(from))] }
 	arity := map[string][]int{"TICKS": {0}, "TIMESPAN": {1, 3, 4, 5}, "NOW": {0}, "DATE": {1, 2, 3, 6, 7}, "DAYOFWEEK": {1}, "MIN": {2, 3, 5}, "MAX": {2, 3, 5}, "SUM": {2, 4},
@@ -335,6 +339,34 @@ func runC08(in sx.SX) (sx.SX, string) {
 				fail = "called through an expression the result differs: " + why
 			} else if e2 == nil && r2 == nil {
 				fail = "called through an expression: nil result without error"
+			}
+		}
+	}
+	// what a function returns belongs to the caller: writing into it in place changes neither the arguments, nor the
+	// package's shared null constant, nor what the same call returns next time
+	if fail == "" && err == nil && res != nil && up != "TICKS" && up != "NOW" && up != "RND" && up != "RANDOM" {
+		isArg := false
+		var beforeArgs []string
+		for _, a := range args {
+			isArg = isArg || a == res
+			beforeArgs = append(beforeArgs, sx.Text(valSX(a)))
+		}
+		if !isArg {
+			res.SetAsInteger(424242)
+			if !variants.Empty.IsNull() {
+				fail = "writing into the result of a function changed the package-level constant variants.Empty to " + sx.Text(valSX(variants.Empty))
+				variants.Empty.Clear()
+			}
+			for i, a := range args {
+				if fail == "" && sx.Text(valSX(a)) != beforeArgs[i] {
+					fail = fmt.Sprintf("writing into the result of %s changed its argument %d", name, i)
+				}
+			}
+			if fail == "" {
+				r2, e2 := f.Calculate(args, m)
+				if e2 != nil || r2 == nil || sx.Text(sx.L(sx.I(0), valSX(r2))) != sx.Text(obs) {
+					fail = fmt.Sprintf("after the caller wrote into the first result, the same call of %s no longer returns %s", name, sx.Text(obs))
+				}
 			}
 		}
 	}
